@@ -50,6 +50,10 @@ def handle : List String → Option String
     pure (match Inv.firstFailure cfg p with
       | none => "true"
       | some clause => s!"false:{clause}")
+  | "totals" :: rest => do
+    -- stones and capstones per colour, on the board plus in reserve (what `Inv` says is constant)
+    let p ← parsePos rest
+    pure s!"{(p.onBoard .white false : Int) + p.wStones} {(p.onBoard .white true : Int) + p.wCaps} {(p.onBoard .black false : Int) + p.bStones} {(p.onBoard .black true : Int) + p.bCaps}"
   | "topsonly" :: rest => do
     let p ← parsePos rest
     pure (toString (decide (TopsOnly p)))
